@@ -57,7 +57,15 @@ func genHistory(rt *rapid.T, o hgenOpts) history {
 					oldSes = 0
 				}
 			}
-			ops = append(ops, hop{K: "open", S: s, P: p, Old: oldSes})
+			pp := 0
+			if rapid.IntRange(0, 3).Draw(rt, "ppid") == 0 {
+				// the session is opened by a child of some (other) sshd process, which
+				// may have a login waiting or bound
+				if pp = rapid.IntRange(1, nS+1).Draw(rt, "ppidN"); pp == p {
+					pp = 0
+				}
+			}
+			ops = append(ops, hop{K: "open", S: s, P: p, Old: oldSes, PP: pp})
 		case k < 72: // ev
 			if !opened[s] && !(o.Strays && rapid.IntRange(0, 4).Draw(rt, "early") == 0) {
 				continue
